@@ -11,7 +11,7 @@ na = json.load(open(na_path)) if os.path.exists(na_path) else {}
 checks, not_app = [], []
 for pid in ids:
     mod = os.path.join(V, "tools", "props", pid.lower() + ".py")
-    if os.path.exists(mod) and pid not in na:
+    if os.path.exists(mod) and pid not in na and not getattr(check.load_prop(pid), "WIP", False):
         P = check.load_prop(pid)
         M = getattr(P, "MANIFEST", {})
         checks.append({
